@@ -191,7 +191,7 @@ def correspond(ctx):
 
 # ----------------------------------------------------------------------------------------- search
 
-BAD_DATA = ("nan", "rank", "short", "mismatch")
+BAD_DATA = ("nan", "rank", "short", "mismatch", "weights-list", "nan-y")
 
 
 def corrupt(kind, X, y, w):
@@ -221,11 +221,20 @@ def corrupt(kind, X, y, w):
         if kind == "nan":
             X2 = X.copy()
             X2["c1"] = 3.5
-            return X2.drop(columns=["c2"]), y, w
+            return X2.drop(columns=[c for c in ("c2",) if c in X2.columns]), y, w
         if kind == "rank":
             return X.values[:, 0], y, w
         return X.iloc[:1], y, w
     X = numpy.array(X, dtype=float)
+    if kind == "weights-list":
+        # a plain Python list of weights (accepted by scikit-learn validation; may fail later in mlinsights code)
+        return X, y, [1.0 + (i % 3) for i in range(X.shape[0])]
+    if kind == "nan-y":
+        if y is None:
+            return X, y, w
+        y2 = numpy.array(y, dtype=float)
+        y2[2] = numpy.nan
+        return X, y2, w
     if kind == "nan":
         X2 = X.copy()
         X2[1, 0] = numpy.nan
